@@ -62,8 +62,95 @@ fn scenarios_for(prop: &str, tier: Tier) -> Vec<Box<dyn Scenario>> {
             }
             v
         }
+        "C09" => {
+            let mut v: Vec<Box<dyn Scenario>> = vec![
+                Box::new(CleanupScenario { minors: vec![20, 20, 14], depth: tier.pick(5, 7), part: 0 }),
+                Box::new(CleanupScenario { minors: vec![20, 17, 20], depth: tier.pick(4, 5), part: 1 }),
+                Box::new(CleanupScenario { minors: vec![20, 16, 18], depth: tier.pick(3, 5), part: 2 }),
+            ];
+            if tier == Tier::Thorough {
+                v.push(Box::new(CleanupScenario { minors: vec![14, 20, 19], depth: 6, part: 0 }));
+            }
+            v
+        }
+        "C12" => {
+            let mut v: Vec<Box<dyn Scenario>> = Vec::new();
+            for minor in 14..=20 {
+                v.push(Box::new(GatingScenario { minor }));
+            }
+            v
+        }
+        "C11" => {
+            let mut v: Vec<Box<dyn Scenario>> = vec![
+                Box::new(AbuseScenario { minors: [20, 20, 20, 20], depth: tier.pick(2, 3), core_only: true }),
+                Box::new(AbuseScenario { minors: [14, 17, 20, 20], depth: tier.pick(1, 2), core_only: false }),
+                Box::new(AbuseScenario { minors: [20, 16, 14, 14], depth: tier.pick(1, 2), core_only: false }),
+            ];
+            if tier == Tier::Thorough {
+                for x in [15, 16, 17, 18, 19] {
+                    v.push(Box::new(AbuseScenario { minors: [20, 14, x, 20], depth: 2, core_only: true }));
+                }
+            }
+            v
+        }
         _ => mcx::machinery(format!("unknown property {prop}")),
     }
+}
+
+/// Straight-line histories (no search): handshake matrix and payload interop matrix of C12.
+fn scripts_for(prop: &str, tier: Tier) -> Vec<(String, Vec<Action>)> {
+    let mut out = Vec::new();
+    if prop != "C12" {
+        return out;
+    }
+    // A: handshake matrix
+    for v in [0u32, 13, 14, 15, 19, 20, 21, u32::MAX] {
+        out.push((format!("handshake legacy Connect version {v}"), vec![Action::Connect { major: 1, minor: v, legacy: true }]));
+    }
+    for major in [0u32, 1, 2, u32::MAX] {
+        for minor in [0u32, 13, 14, 15, 16, 17, 18, 19, 20, 21, 255, u32::MAX] {
+            out.push((format!("handshake Connect2 {major}.{minor}"), vec![Action::Connect { major, minor, legacy: false }]));
+        }
+    }
+    for m in [sync(1), create_object(1, crate::sym::obj_uuid(1)), crate::sym::msg(crate::sym::k::SHUTDOWN, vec![]), crate::sym::msgv(crate::sym::k::CONNECT_REPLY2, vec![65, 0], vec![crate::sym::d(0), crate::sym::v(20)])] {
+        out.push((format!("handshake with first message {}", crate::sym::render(&m)), vec![Action::ConnectGarbage(m)]));
+    }
+    // two handshakes after each other, and a handshake after a rejected one
+    out.push(("two connections".into(), vec![connect(20), connect(14), Action::Connect { major: 2, minor: 0, legacy: false }, connect(17)]));
+    // D: payload interop, all version pairs x carriers x payload corpus
+    use crate::sym::{cid, IdKind};
+    use refcodec::{Epoch, KeyType, RefKey, RefValue};
+    let corpus: Vec<RefValue> = vec![
+        RefValue::Vec(vec![RefValue::U8(1), RefValue::None]),
+        RefValue::Bytes(vec![1, 2, 3]),
+        RefValue::Map(KeyType::U32, vec![(RefKey::U32(70_000), RefValue::String(b"x".to_vec()))]),
+        RefValue::Set(KeyType::String, vec![RefKey::String(b"a".to_vec()), RefKey::String(b"b".to_vec())]),
+        RefValue::Struct(vec![(1, RefValue::Vec(vec![RefValue::Bytes(vec![])])), (300, RefValue::Some(Box::new(RefValue::I64(-5))))]),
+        RefValue::Enum(2, Box::new(RefValue::Map(KeyType::Uuid, vec![(RefKey::Uuid([7; 16]), RefValue::Set(KeyType::I16, vec![RefKey::I16(-300)]))]))),
+        RefValue::Some(Box::new(RefValue::Struct(vec![]))),
+        RefValue::U64(1 << 40),
+    ];
+    let versions: Vec<u32> = if tier == Tier::Thorough { (14..=20).collect() } else { vec![14, 16, 17, 19, 20] };
+    for a in &versions {
+        for b in &versions {
+            let enc = |v: &RefValue, minor: u32| refcodec::encode_vec(&v.clone().normalize(), if minor >= 20 { Epoch::V2 } else { Epoch::V1 });
+            let (s, r) = (0usize, 1usize);
+            let mut h = vec![connect(*a), connect(*b)];
+            h.push(send(r, create_object(1, crate::sym::obj_uuid(1))));
+            h.push(send(r, create_service(2, cid(IdKind::Obj, 0), crate::sym::svc_uuid(1), 1)));
+            h.push(send(s, subscribe_event(Some(3), cid(IdKind::Svc, 0), 1)));
+            h.push(send(s, create_channel_sender(4)));
+            h.push(send(r, claim_receiver(5, cid(IdKind::Chan, 0), 100)));
+            for (i, val) in corpus.iter().enumerate() {
+                h.push(send(s, call_function(0, cid(IdKind::Svc, 0), 1, enc(val, *a))));
+                h.push(send(r, call_function_reply(crate::sym::bserial(i as u32), (i % 2) as u8, enc(val, *b))));
+                h.push(send(r, emit_event(cid(IdKind::Svc, 0), 1, enc(val, *b))));
+                h.push(send(s, send_item(cid(IdKind::Chan, 0), enc(val, *a))));
+            }
+            out.push((format!("interop sender 1.{a} receiver 1.{b}"), h));
+        }
+    }
+    out
 }
 
 fn scenario_by_name(prop: &str, name: &str, params: &serde_json::Value) -> Option<Box<dyn Scenario>> {
@@ -111,6 +198,45 @@ pub fn run(prop: &str, tier: Tier) -> ! {
             break;
         }
     }
+    // straight-line scripts
+    let scripts = scripts_for(prop, tier);
+    let mut script_steps = 0u64;
+    struct ScriptSc;
+    impl Scenario for ScriptSc {
+        fn name(&self) -> String {
+            "script".into()
+        }
+        fn params(&self) -> serde_json::Value {
+            json!({})
+        }
+        fn prelude(&self) -> Vec<Action> {
+            vec![]
+        }
+        fn actions(&self, _m: &crate::model::Model, _s: &crate::run::Stale, _d: usize) -> Vec<(Action, bool)> {
+            vec![]
+        }
+        fn max_depth(&self) -> usize {
+            0
+        }
+    }
+    for (name, hist) in &scripts {
+        let (r, res) = run_history(&ScriptSc, hist, false);
+        script_steps += r.steps as u64;
+        total.comparisons += r.comparisons;
+        if let Err(v) = res {
+            let (r2, _) = run_history(&ScriptSc, hist, true);
+            rep.violation(&format!("script/{}", v.clause), hist.len() as u64, || {
+                json!({"scenario": "script", "params": {}, "script": name, "history": hist.iter().map(|a| a.to_json()).collect::<Vec<_>>(),
+                       "history_text": hist.iter().map(|a| a.text()).collect::<Vec<_>>(), "failing_step": v.step, "clause": v.clause, "detail": v.detail, "transcript": r2.transcript})
+            });
+        }
+        let _ = r;
+    }
+    if !scripts.is_empty() {
+        total.states += scripts.len() as u64;
+        total.transitions += script_steps;
+        per.push(json!({"scenario": "scripts", "scripts": scripts.len(), "steps": script_steps, "first": scripts[0].0, "last": scripts[scripts.len() - 1].0}));
+    }
     if total.states < 2 && !rep.has_violation() {
         mcx::machinery("vacuity guard: search visited fewer than 2 states");
     }
@@ -141,8 +267,31 @@ pub fn replay(path: &str) -> ! {
     let prop = v["property"].as_str().unwrap_or("").to_string();
     let w = &v["witness"];
     let name = w["scenario"].as_str().unwrap_or("");
-    let Some(sc) = scenario_by_name(&prop, name, &w["params"]) else {
-        mcx::machinery(format!("unknown scenario {name} for {prop}"));
+    struct ScriptSc2;
+    impl Scenario for ScriptSc2 {
+        fn name(&self) -> String {
+            "script".into()
+        }
+        fn params(&self) -> serde_json::Value {
+            json!({})
+        }
+        fn prelude(&self) -> Vec<Action> {
+            vec![]
+        }
+        fn actions(&self, _m: &crate::model::Model, _s: &crate::run::Stale, _d: usize) -> Vec<(Action, bool)> {
+            vec![]
+        }
+        fn max_depth(&self) -> usize {
+            0
+        }
+    }
+    let sc: Box<dyn Scenario> = if name == "script" {
+        Box::new(ScriptSc2)
+    } else {
+        match scenario_by_name(&prop, name, &w["params"]) {
+            Some(s) => s,
+            None => mcx::machinery(format!("unknown scenario {name} for {prop}")),
+        }
     };
     let hist: Vec<Action> = w["history"].as_array().map(|a| a.iter().filter_map(Action::from_json).collect()).unwrap_or_default();
     println!("replaying {} actions of scenario {} ({})", hist.len(), name, prop);
